@@ -136,6 +136,50 @@ let trace input =
       let es = trace_through_awaits thrower awaiters in
       String.concat " " (List.map (fun e -> zs e.en_func ^ ":" ^ zs e.en_line ^ ":" ^ zs e.en_tcc) es)
 
+(* "hist <clear><refonly> <episode> # <episode> ... [@ <awaiters>]": the stored-trace protocol.
+   episode = <S|C|T>~<r|i><n>~<D|N>~<thread>^<thread>... : ending (swallowed / caught / T = the final,
+   uncaught error), error value (reference / inline), origin kind (THROW instruction / native error)
+   and the thread snapshots, the origin's first, then the snapshot of every instruction the error
+   is handed back to by native code (innermost first).  Output: the trace `reported` gives for the
+   final episode after the earlier ones, prepended by the awaiters' chains. *)
+let hist input =
+  let cfgs, rest =
+    match String.index_opt input ' ' with
+    | Some i -> (String.sub input 0 i, String.sub input (i + 1) (String.length input - i - 1))
+    | None -> failwith "hist" in
+  let c = { cfg_clear = cfgs.[0] = '1'; cfg_refonly = cfgs.[1] = '1' } in
+  let main, awaiters =
+    match Str_split.after rest " @ " with
+    | Some a ->
+        let n = String.length rest - String.length a - 3 in
+        (String.sub rest 0 n, List.map parse_thread (String.split_on_char '|' a))
+    | None -> (rest, []) in
+  let split_on sep s =
+    let rec go acc s = match Str_split.after s sep with
+      | Some r -> go (String.sub s 0 (String.length s - String.length r - String.length sep) :: acc) r
+      | None -> List.rev (s :: acc) in
+    go [] s in
+  let episode e =
+    match String.split_on_char '~' (String.trim e) with
+    | [ en; v; k; ths ] ->
+        let v = let n = z (String.sub v 1 (String.length v - 1)) in if v.[0] = 'r' then VRef n else VInline n in
+        let o =
+          match List.map parse_thread (String.split_on_char '^' ths) with
+          | [] -> failwith "origin"
+          | t0 :: outer ->
+              List.fold_left (fun o th -> Crossed (o, th)) (if k = "D" then Direct t0 else Native t0) outer in
+        (en, o, v)
+    | _ -> failwith ("episode " ^ e) in
+  let eps = List.map episode (split_on " # " main) in
+  let prior = List.filter (fun (en, _, _) -> en <> "T") eps in
+  let h = List.map (fun (en, o, v) -> ((o, v), if en = "S" then Swallowed else Caught)) prior in
+  match List.filter (fun (en, _, _) -> en = "T") eps with
+  | [ (_, o, v) ] ->
+      let base = reported c h o v in
+      let es = List.fold_left (fun b th -> build_trace_prepend th b) base awaiters in
+      String.concat " " (List.map (fun e -> zs e.en_func ^ ":" ^ zs e.en_line ^ ":" ^ zs e.en_tcc) es)
+  | _ -> "bad-input"
+
 let () =
   Zio.iter_lines (fun line ->
       match Zio.split_tab line with
@@ -144,6 +188,8 @@ let () =
             try
               if String.length input > 6 && String.sub input 0 6 = "trace " then
                 trace (String.sub input 6 (String.length input - 6))
+              else if String.length input > 5 && String.sub input 0 5 = "hist " then
+                hist (String.sub input 5 (String.length input - 5))
               else if String.length input > 6 && String.sub input 0 6 = "lines " then lines input
               else rle input
             with e -> "driver-error " ^ Printexc.to_string e
